@@ -8,6 +8,7 @@ import BV.C05.Lemmas3
 import BV.C05.Lemmas4
 import BV.C05.Lemmas5
 import BV.C05.Lemmas6
+import BV.C05.Lemmas7
 import BV.Generated.C05
 namespace BV.C05
 open Treap
@@ -205,6 +206,15 @@ theorem cursor_forward_view {K V : Type} (cmp : K → K → Ordering) (h : OrdLa
   · intro z
     rw [Lemmas.mem_mergeSorted, List.mem_filter]
     simp
+
+/-- `cursor_forward` for the algorithm as written (`chooseIterator` with `skipPendingUpdates` over
+two lawful sub-iterators, positions being entries): `First` followed by `Next` until exhaustion
+emits exactly `fwdRun`, hence the sorted view above. -/
+theorem cursor_forward_algorithm {K V : Type} (cmp : K → K → Ordering) (h : OrdLaws cmp)
+    (sh : K → Bool) (A B : List (K × V)) (hA : SortedKeys cmp A) (hB : SortedKeys cmp B)
+    (n : Nat) (hn : A.length + B.length ≤ n) :
+    collectFwd cmp sh A B n (mFirst cmp sh A B) = fwdRun cmp sh A B :=
+  Lemmas.forward_run_eq h sh A B hA hB A B [] [] n rfl rfl hn
 
 /-- `cursor_backward`: `Last` followed by `Prev`s emits the same merge of the reversed lists under
 the reversed order. -/
